@@ -88,6 +88,9 @@ def rxData (rx : Rx) (ins : List (Nat × InStream)) (c : RChunk) :
   else
     let ins := if (dictGet ins c.sid).isSome then ins else ins ++ [(c.sid, {})]
     let s := (dictGet ins c.sid).getD {}
+    -- still waiting in the reassembly queue: dropped as a duplicate before `add_chunk`
+    if s.reasm.any (fun x => x.tsn == c.tsn) then .ok (rx', ins, [])
+    else
     match s.addChunk c with
     | .ok s1 =>
       match s1.popMessages with
